@@ -18,7 +18,7 @@ func init() {
 		Decides: "repair never overwrites newer state: in shard.repair the document update is unreachable when the newest local revision is greater than the incoming one, or equal with the same delete time, and reachable when it is older (or equal with a different tombstone state); the local documents are sorted by revision before the newest is read; " +
 			"the query-side de-duplication (sorted and unsorted) replaces an entry only by a strictly higher revision; the newest previous revision is chosen over all documents, tombstones included; the Apply strategies are exactly those of the proto enum.",
 		NotDecided: "map equivalence over histories, convergence under gossip orders, Merkle-tree logic, tag merge contents.",
-		Technique:  "SSA path search under hypothetical orderings of two revisions (relational world pruning); comparator truth table; CFG dominance; enum agreement",
+		Technique:  "SSA path search under hypothetical orderings of two revisions (relational world pruning); comparator truth table; CFG dominance; enum agreement; SSA def-use of the entry removed from the ordered buffer",
 		Run:        runC18,
 	})
 }
